@@ -101,6 +101,12 @@ class ConcreteWorld(World):
         if isinstance(v, np.ndarray):
             return self.canon(v.tolist())
         if isinstance(v, np.generic):
+            if isinstance(v, np.floating):
+                return self.canon(float(v))
+            if isinstance(v, np.integer):
+                return int(v)
+            if isinstance(v, np.bool_):
+                return bool(v)
             return self.canon(v.item())
         if isinstance(v, np.dtype):
             return str(v)
